@@ -166,6 +166,10 @@ theorem step_views (w : World) (op : Op) : ViewsStep w op (step w op).1 := by
       simp only [stepView, doFree, fail]
       repeat' split
       all_goals exact .same rfl
+    | freeFail i =>
+      simp only [stepView, doFreeFail, fail]
+      repeat' split
+      all_goals exact .same rfl
     | index i => simp only [stepView, fail]; split <;> exact .same rfl
     | len i => exact .same rfl
     | tell i => simp only [stepView, fail, done]; split <;> exact .same rfl
@@ -222,6 +226,10 @@ theorem step_xy (w : World) (op : Op) : (step w op).1.x = w.x ∧ (step w op).1.
       simp only [stepView, doFree, fail]
       repeat' split
       all_goals exact ⟨rfl, rfl⟩
+    | freeFail i =>
+      simp only [stepView, doFreeFail, fail]
+      repeat' split
+      all_goals exact ⟨rfl, rfl⟩
     | index i => simp only [stepView, fail]; split <;> exact ⟨rfl, rfl⟩
     | len i => exact ⟨rfl, rfl⟩
     | tell i => simp only [stepView, fail, done]; split <;> exact ⟨rfl, rfl⟩
@@ -250,6 +258,10 @@ theorem step_freed (w : World) (op : Op) (h : w.freed = true) : (step w op).1.fr
       all_goals exact h
     | free i =>
       simp only [stepView, doFree, fail, h]
+      repeat' split
+      all_goals first | exact h | rfl
+    | freeFail i =>
+      simp only [stepView, doFreeFail, fail, h]
       repeat' split
       all_goals first | exact h | rfl
     | index i => simp only [stepView, fail]; split <;> exact h
@@ -558,6 +570,10 @@ theorem step_freed_noaccess (w : World) (op : Op) (h : w.freed = true) : (step w
       simp only [stepView, doFree, fail, h]
       repeat' split
       all_goals first | rfl | simp_all
+    | freeFail i =>
+      simp only [stepView, doFreeFail, fail, h]
+      repeat' split
+      all_goals first | rfl | simp_all
     | _ => simp [stepView, doRead, doWrite, doReadFail, doWriteFail, doSeek, fail, done, hd]
 
 theorem step_confined_lem (w : World) (op : Op) (a : Access) (h : (step w op).2.access = some a) :
@@ -583,6 +599,16 @@ theorem step_confined_lem (w : World) (op : Op) (a : Access) (h : (step w op).2.
       exact ⟨this.1, fun ad x y e => absurd e (this.2 ad x y)⟩
     | free i =>
       simp only [stepView, doFree] at h
+      split at h
+      · simp [fail] at h
+      · split at h
+        · simp [fail] at h
+        · simp only [Option.some.injEq] at h
+          subst h
+          rename_i h0 _
+          exact ⟨⟨rfl, rfl, rfl⟩, fun _ _ _ _ => by simpa [Op.target] using h0⟩
+    | freeFail i =>
+      simp only [stepView, doFreeFail] at h
       split at h
       · simp [fail] at h
       · split at h
